@@ -1,0 +1,11 @@
+//go:build verif
+
+package network
+
+import "net"
+
+// VerifNewClientIDConnection exposes newClientIDConnection to the verification harness
+// (a connection wrapper carrying the client id derived from the transport, as wrapClientConnection builds it).
+func VerifNewClientIDConnection(conn net.Conn, clientID []byte) net.Conn {
+	return newClientIDConnection(conn, clientID)
+}
